@@ -94,12 +94,12 @@ func execute(p *core.Property, r *core.Run) {
 		if e := recover(); e != nil {
 			if he, ok := e.(core.HarnessError); ok {
 				fmt.Fprintf(os.Stderr, "HARNESS-ERROR property=%s run=%d: %s\n", p.ID, r.Index, he.Msg)
-				os.Exit(2)
+				os.Exit(3)
 			}
 			st := string(debug.Stack())
 			if !core.PanicInLibrary(st) {
 				fmt.Fprintf(os.Stderr, "HARNESS-ERROR property=%s run=%d: panic in harness code: %v\n%s\n", p.ID, r.Index, e, clipStack(st))
-				os.Exit(2)
+				os.Exit(3)
 			}
 			if r.V == nil {
 				r.V = &core.Violation{Class: "panic", Key: panicKey(e, st), Detail: fmt.Sprintf("panic: %v\n%s", e, clipStack(st))}
@@ -163,7 +163,7 @@ func main() {
 	p := core.Lookup(*prop)
 	if p == nil {
 		fmt.Fprintf(os.Stderr, "worker: unknown property %q (built with: %v)\n", *prop, core.IDs())
-		os.Exit(2)
+		os.Exit(3)
 	}
 	if p.Setup != nil {
 		p.Setup()
@@ -192,7 +192,7 @@ func main() {
 		sf, err = os.OpenFile(*status, os.O_CREATE|os.O_WRONLY, 0o644)
 		if err != nil {
 			fmt.Fprintln(os.Stderr, "worker:", err)
-			os.Exit(2)
+			os.Exit(3)
 		}
 	}
 	o := &output{Property: p.ID, Faults: map[string]int64{}, Probes: map[string]int64{}, ViolCount: map[string]int64{}}
@@ -264,11 +264,11 @@ func writeOut(path string, o *output, sigs []byte) {
 	b, _ := json.Marshal(o)
 	if err := os.WriteFile(path, b, 0o644); err != nil {
 		fmt.Fprintln(os.Stderr, "worker:", err)
-		os.Exit(2)
+		os.Exit(3)
 	}
 	if err := os.WriteFile(path+".sigs", sigs, 0o644); err != nil {
 		fmt.Fprintln(os.Stderr, "worker:", err)
-		os.Exit(2)
+		os.Exit(3)
 	}
 }
 
@@ -294,12 +294,12 @@ func doReplay(p *core.Property, path string, shrink bool, out string, budget int
 	b, err := os.ReadFile(path)
 	if err != nil {
 		fmt.Fprintln(os.Stderr, "worker:", err)
-		os.Exit(2)
+		os.Exit(3)
 	}
 	var rf ReplayFile
 	if err := json.Unmarshal(b, &rf); err != nil {
 		fmt.Fprintln(os.Stderr, "worker: bad replay file:", err)
-		os.Exit(2)
+		os.Exit(3)
 	}
 	if rf.Tier == "" {
 		rf.Tier = "quick"
